@@ -728,6 +728,7 @@ func lex(l *html.Lexer, n int) []tok {
 		tt, data := l.Next()
 		twinPlain.Step()
 		twinTmpl.Step()
+		gen.Extend(data)
 		_ = l.Err() // polled after every call: reading the error state must not disturb the lexer
 		if tt == html.ErrorToken {
 			return out
@@ -831,6 +832,7 @@ func TestProp_Structure(t *testing.T) {
 			tt, data := l.Next()
 			twinPlain.Step()
 			twinTmpl.Step()
+			gen.Extend(data)
 			if tt == html.ErrorToken {
 				break
 			}
